@@ -226,7 +226,7 @@ def tree_features(spec):
 
 def wl_trees(ctx, rng, case_no):
     from rich.measure import Measurement
-    spec = SP.gen_spec(rng, depth=rng.choice([1, 2, 3, 4]), profile={"allow_fixed": True, "allow_ignore": True})
+    spec = SP.gen_spec(rng, depth=rng.choice([1, 2, 3, 4]), profile={"allow_fixed": True, "allow_ignore": True, "vcenter": True})
     m = SP.structural_min(spec)
     widths = sorted({1, 2, 3, 4, 5, 80, 200} | {rng.randint(1, 200) for _ in range(4)} |
                     {max(1, m - 1), max(1, m // 2)})
